@@ -381,6 +381,11 @@ def _rand_c05(rng, tier):
     hows = ["mf", "builder"]
     for i in range(n):
         pool = [rand_spec(rng) for _ in range(4)]
+        if i % 3 == 1:
+            # specifications that differ ONLY in the text filter (same module filters): added, replaced, removed
+            base = rand_spec(rng, p_re=0.0)
+            pool = [dict(base, hasre=bool(r_), re=list(r_)) for r_ in ([], ["a"], ["b", "a"], ["a", "b"])]
+            rng.shuffle(pool)
         s0 = pool[0]
         steps = [{"op": "Build", "spec": s0, "how": rng.choice(["mf", "builder", "parse"]), "rtoks": render(s0)}]
         depth = 0
